@@ -191,6 +191,10 @@ impl NumericParser {
         if self.is_first_digit {
             return false;
         }
+        if self.tmp.has_point() {
+            // a thousands separator cannot follow the decimal point
+            return false;
+        }
         if !self.has_comma {
             return self.digit_length <= 3 && !self.tmp.is_zero() && !self.tmp.is_all_zero;
         }
